@@ -32,11 +32,21 @@ class NewSample(Contract):
     branch_timeout_ms = 1500
 
     def cases(self):
-        return [{'label': 'any-keyword-map'}]
+        import os
+        cs = [{'label': 'times:any-keyword-map', 'focus': 'times'},
+              {'label': 'channels:no-optional-time-keywords', 'focus': 'channels'}]
+        if os.environ.get('VERIF_TIER') == 'thorough' or os.environ.get('PYVC_FULL'):
+            cs.append({'label': 'full:any-keyword-map', 'focus': 'full'})
+        return cs
 
     def setup(self, I, case):
         c = I.ctx
         text = sym_text(I, 'text')
+        if case.get('focus') == 'channels':
+            # the per-channel derivations are checked on files without the optional time keywords (the channel loops do not
+            # read them); the full product time-keywords x channel-keywords runs in the thorough tier (case 'full')
+            for kw in ('$TIMESTEP', 'TIMETICKS', '$DATE', '$BTIM', '$ETIM'):
+                c.assume(z3.Not(z3.Select(text.present, S(kw))))
         N, D = sym_dims(I, 'N', 'D')
         data = sym_array(I, 'events', [N, D], 'float')
         analysis = sym_text(I, 'analysis')
@@ -150,6 +160,11 @@ class NewSample(Contract):
         I.prove_forked('data-type-is-$DATATYPE', lambda: struct_eq(I, at.get('_data_type'), OptVal(z3.Not(has('$DATATYPE')), SV(val('$DATATYPE'), 'str'))))
         P('events-are-the-file-events', obj.root() is aux['data'] or obj.view_of is aux['data'])
         P('keywords-and-analysis-kept', at.get('_text') is text and at.get('_analysis') is aux['analysis'] and at.get('_infile') is aux['infile'])
+        focus = case.get('focus', 'full')
+        if focus in ('times', 'full'):
+            self.check_times(I, aux, at, has, val)
+        if focus == 'times':
+            return
         # --- per channel attributes for an arbitrary channel i
         i = I.ctx.fresh_int('chan_i')
         inr = z3.And(0 <= i, i < D)
@@ -190,10 +205,12 @@ class NewSample(Contract):
         I.prove_forked('amplifier-gain-from-$PnG-or-the-Cytek-fallback',
                        lambda: struct_eq(I, elem('_amplifier_gain'),
                                          OptVal(z3.Not(z3.And(gsrc_present, PB.float_ok(gsrc_val))), SV(PB.float_val(gsrc_val), 'real'))))
+    def check_times(self, I, aux, at, has, val):
+        P = I.ctx.prove
         # start / end times: absent or unparseable -> None; combined with the date iff a date parsed
         date_ok = z3.And(has('$DATE'), DATE_OK(val('$DATE')))
         for nm, kw in (('_acquisition_start_time', '$BTIM'), ('_acquisition_end_time', '$ETIM')):
-            v = at.get(nm)
+            v = I.force(at.get(nm))
             t_ok = z3.And(has(kw), TIME_OK(val(kw)))
             if v is None:
                 P('%s-absent-only-when-missing-or-unparseable' % nm, z3.Not(t_ok))
@@ -228,6 +245,9 @@ class ParseTime(Contract):
         s_ = None if case['label'] == 'none' else SV(I.ctx.fresh_str('time_str'), 'str')
         return [s_], {}, {'s': s_}
 
+    def witness(self, model, case, aux):
+        return {'clause': 'formats', 'fn': self.fn_name}
+
     def check(self, I, case, aux, out):
         P = I.ctx.prove
         P('never-raises', out.kind == 'return')
@@ -236,9 +256,27 @@ class ParseTime(Contract):
         v = out.value
         if case['label'] == 'none':
             P('None-for-a-missing-keyword', v is None)
-        else:
-            want = 'time' if self.fn_name == 'time' else 'datetime'
-            P('result-is-None-or-a-%s' % want, v is None or (isinstance(v, Opaque) and v.tag == want))
+            return
+        want = 'time' if self.fn_name == 'time' else 'datetime'
+        P('result-is-None-or-a-%s' % want, v is None or (isinstance(v, Opaque) and v.tag == want))
+        if self.fn_name != 'time' or v is None or not isinstance(v, Opaque):
+            return
+        # value clauses (from the property: hh:mm:ss, hh:mm:ss.cc, hh:mm:ss:tt with tt in 1/60 s), phrased with the same
+        # uninterpreted split/strptime symbols
+        sz = aux['s'].z
+        sep = S(':')
+        cnt = z3.Function('split_count', z3.StringSort(), z3.StringSort(), Z)
+        piece = z3.Function('split_piece', z3.StringSort(), z3.StringSort(), Z, z3.StringSort())
+        n = cnt(sz, sep)
+        fmt = S('%H:%M:%S:%f')
+        p = [piece(sz, sep, z3.IntVal(k)) for k in range(4)]
+        tt = PB.float_val(p[3]) * 1000000 / 60
+        micro = z3.If(tt >= 0, z3.ToInt(tt), -z3.ToInt(-tt))
+        four = z3.Concat(p[0], sep, p[1], sep, p[2], sep, PB.fmt_fn(I, '\x0006d', micro).z)
+        P('four-field-format:tt-is-sixtieths-of-a-second(zero-padded-microseconds)',
+          z3.Implies(z3.And(n == 4, micro >= 0), v.payload == DT.TIME_OF(DT.STRP(four, fmt))))
+        P('three-field-format-without-fraction:appends-zero-microseconds',
+          z3.Implies(z3.And(n == 3, z3.Not(z3.Contains(p[2], S('.')))), v.payload == DT.TIME_OF(DT.STRP(z3.Concat(sz, S(':0')), fmt))))
 
 
 class ParseDate(ParseTime):
@@ -247,3 +285,99 @@ class ParseDate(ParseTime):
 
 
 CONTRACTS = [NewSample(), ParseTime(), ParseDate()]
+
+
+class AcquisitionTime(Contract):
+    """acquisition_time: from the time channel when it and a time step exist, else from start/end times, else None;
+    raises only for two time channels (bounded in the number of channels: D = 1..3, everything else symbolic)"""
+    target = 'FlowCal.io.FCSData.acquisition_time'
+    property_ids = ('C17',)
+    assumptions = ('acquisition_time: proved for D = 1, 2, 3 channels (the comprehension that finds the time channel filters a '
+                   'sequence; the engine needs a concrete length for filters); A-STR: str.lower uninterpreted',)
+    frame_result = None
+
+    def cases(self):
+        out = []
+        for D in (1, 2, 3):
+            for ts in ('none', 'given'):
+                for times in ('none', 'time', 'datetime', 'start-only'):
+                    out.append({'label': 'D=%d,timestep=%s,times=%s' % (D, ts, times), 'D': D, 'ts': ts, 'times': times})
+        return out
+
+    def setup(self, I, case):
+        from .common import sym_fcs
+        c = I.ctx
+        N = c.fresh_int('N')
+        c.assume(N >= 1)
+        D = case['D']
+        data = sym_fcs(I, 'data', N, D)
+        names = [SV(c.fresh_str('name%d' % k), 'str') for k in range(D)]
+        for a in range(D):
+            for b in range(a + 1, D):
+                c.assume(names[a].z != names[b].z)
+        data.attrs['_channels'] = stamp(Seq('tuple', names))
+        aux = {'data': data, 'N': N, 'D': D, 'names': names}
+        if case['ts'] == 'given':
+            aux['ts'] = c.fresh_real('time_step')
+            data.attrs['_time_step'] = SV(aux['ts'], 'real')
+        else:
+            data.attrs['_time_step'] = None
+        kind = case['times']
+        if kind == 'none':
+            s_, e_ = None, None
+        elif kind == 'start-only':
+            s_, e_ = Opaque('time', c.fresh_int('t_start')), None
+        else:
+            tag = 'time' if kind == 'time' else 'datetime'
+            s_, e_ = Opaque(tag, c.fresh_int('t_start')), Opaque(tag, c.fresh_int('t_end'))
+        data.attrs['_acquisition_start_time'], data.attrs['_acquisition_end_time'] = s_, e_
+        aux['s'], aux['e'] = s_, e_
+        from . import io_specs
+        self.config = {'call_contracts': io_specs.summaries()}
+        I.call_contracts = self.config['call_contracts']
+        I.config.update(self.config)
+        # acquisition_time is a property: call the underlying function
+        cls = I.fcs_class()
+        fn = cls.members['acquisition_time']
+        self._fn = fn
+        return [data], {}, aux
+
+    def expected_outcomes(self, case):
+        return ['return']
+
+    def check(self, I, case, aux, out):
+        P = I.ctx.prove
+        lower = z3.Function('str_lower', z3.StringSort(), z3.StringSort())
+        is_time = [lower(n.z) == z3.StringVal('time') for n in aux['names']]
+        count = z3.Sum([z3.If(b, 1, 0) for b in is_time])
+        data = aux['data']
+        if out.kind == 'raise':
+            P('raises-only-for-two-time-channels', count > 1)
+            P('refusal-class', out.raised('KeyError'))
+            return
+        P('returns-only-with-at-most-one-time-channel', count <= 1)
+        v = out.value
+        have_times = aux['s'] is not None and aux['e'] is not None
+        from_channel = z3.And(count == 1, z3.BoolVal(case['ts'] == 'given'))
+        if v is None:
+            P('absent-only-without-usable-sources', z3.And(z3.Not(from_channel), z3.BoolVal(not have_times)))
+            return
+        vz = I.z(v, 'real')
+        x = data.ufn
+        N = aux['N']
+        if case['ts'] == 'given':
+            span = z3.Sum([z3.If(is_time[k], (x(N - 1, z3.IntVal(k)) - x(z3.IntVal(0), z3.IntVal(k))) * aux['ts'], z3.RealVal(0))
+                           for k in range(aux['D'])])
+        else:
+            span = z3.RealVal(0)
+        if have_times:
+            sz, ez = aux['s'].payload, aux['e'].payload
+            if aux['s'].tag == 'time':
+                sz, ez = DT.COMBINE(DT.DATE_MIN, sz), DT.COMBINE(DT.DATE_MIN, ez)
+            diff = DT.DIFF_SECONDS(ez, sz)
+            P('time-channel-span-times-step-else-end-minus-start', vz == z3.If(from_channel, span, diff))
+        else:
+            P('time-channel-span-times-step', z3.And(from_channel, vz == span))
+
+
+CONTRACTS.append(AcquisitionTime())
